@@ -403,6 +403,12 @@ PROPS['C19']['explanation'] = 'All 11 variants by Kani (block length 16, round t
 _CTRL_TOOL = [{'kind': 'witness', 'domains': ['controller'], 'bound': '60000 random reply scripts (quick; x10 thorough) against the REAL Sign through its public API only, judged by the same protocol monitor as the Kani proofs '
                '(kani/sign_monitor.rs, included textually): configure, configure_if_needed, shut_down, show, load-next, send_pages with 0..3 pages of 16 / 48 / 96 / 336 bytes and, every 97th script, of 4096 / 65520 / 65536 bytes (the 16-bit offset limit); '
                'replies biased (75..100 %) towards the ones that let the conversation continue; own/foreign addresses 1:1; every second script is followed by a SECOND operation on the same Sign object judged by a fresh monitor (no protocol state may survive between operations); every third page list repeats one page id; bus errors rotate through io::Error(TimedOut), io::Error(Other), FrameError::Io(TimedOut), a string error and an opaque error type'}]
+_SIGN_STATELESS = {'kind': 'premise', 'name': 'sign-has-no-state', 'file': 'src/sign.rs', 'struct': 'Sign',
+                   'fields': ['address: Address', 'sign_type: SignType', 'bus: Rc<RefCell<dyn SignBus>>'],
+                   'forbid': [r'\bCell\s*<', r'\bRefCell\s*<(?!\s*dyn SignBus\s*>)', r'\bstatic\s+(mut\s+)?[A-Z_]+\s*:', r'thread_local!', r'\bAtomic[A-Z]\w*', r'\bMutex\b', r'\bRwLock\b',
+                              r'\bOnce(Cell|Lock)\b', r'lazy_static!', r'\bunsafe\b', r'&mut\s+self'],
+                   'text': 'a Sign has exactly the fields {address, sign_type, bus}, every method takes &self, and sign.rs has no interior mutability / statics / unsafe besides the shared bus handle: '
+                           'operations cannot communicate through the controller object, which is what lets every operation be verified from a fresh object'}
 for _pid in ('C09', 'C10', 'C11'):
-    PROPS[_pid]['tools'] = _CTRL_TOOL
+    PROPS[_pid]['tools'] = [_SIGN_STATELESS] + _CTRL_TOOL
     PROPS[_pid]['assumptions'] = PROPS[_pid]['assumptions'] + ['the native oracle run (witness search controller) is a bounded complement: it is independent of private signatures of sign.rs and reaches page sizes up to the 16-bit offset limit, which the Kani shapes do not; it is listed under bounded_standins']
